@@ -483,7 +483,7 @@ class SymArray(np.ndarray):
         return sym_reduce(_logical_or, self, axis)
 
     def mean(self, axis=None, dtype=None, **kw):
-        s = self.sum(axis=axis)
+        s = self.sum(axis=axis, **{k: v for k, v in kw.items() if k == "keepdims"})
         n = self.size if axis is None else int(np.prod([self.shape[a] for a in _axes(axis, self.ndim)]))
         return s / n
 
